@@ -183,6 +183,38 @@ struct Harness {
       }
    }
 
+   // ... and nested far deeper than there are qualifier bits (levels that repeat or add nothing are legal for a client to build):
+   // every depth from 1 to 80, then a few in the hundreds and thousands
+   void deeply_nested_operands()
+   {
+      std::vector<int> depths; for (int d = 1; d <= 80; ++d) depths.push_back(d);
+      for (int d : { 127, 128, 129, 200, 255, 256, 257, 1000, 4096 }) depths.push_back(d);
+      for (std::size_t ti = 0; ti < base.size(); ti += 7) {
+         const Type& T = *base[ti];
+         for (int d : depths) {
+            if (d > 80 && ti != 0) continue;
+            std::uintptr_t all = 0; const Type* op = &T; std::uintptr_t deepest = 0, outermost = 0;
+            for (int k = 0; k < d; ++k) {
+               // the innermost levels carry a bit the outer ones never repeat in half of the chains (lost if the walk stops early)
+               std::uintptr_t l = (k == 0 && d % 2) ? 4 : 1 + rng.below(d % 2 ? 3 : 7);
+               if (k == 0) deepest = l; outermost = l;
+               client_made.emplace_back(impl::Qualified::Rep { Qualifiers(l), *op }); op = &client_made.back(); all |= l;
+            }
+            const std::uintptr_t ask = 1 + rng.below(7), S = all | ask;
+            const Qualified& R = lex.get_qualified(Qualifiers(ask), *op);
+            ctx().count("requalifications_of_a_client_made_operand_nested_deeper_than_the_number_of_qualifier_bits", d > 64);
+            ctx().maxi("deepest_client_made_nesting", d);
+            auto why = [&](const char* what) { ctx().viol(std::string(what) + ":client-made-deeply-nested-operand", std::string(what) + " when qualifying (set " + std::to_string(ask) + ") a client-made qualified type nested " + std::to_string(d) + " levels (innermost set " + std::to_string(deepest) + ", outermost " + std::to_string(outermost) + ", union " + std::to_string(all) + ")", J().n("ask", (long long)ask).n("depth", d).str()); };
+            if (std::uintptr_t(R.qualifiers()) != S) why("qualifiers-not-union");
+            if (&R.main_variant() != &T) why("main-variant-not-innermost");
+            if (R.main_variant().category == Category_code::Qualified) why("main-variant-is-qualified");
+            auto [it, fresh] = model.emplace(std::make_pair(S, &T), &R);
+            if (!fresh && it->second != &R) why("order-dependent-node");
+            ctx().eval(hash_mix(hash_mix(ti, S), d), true);
+         }
+      }
+   }
+
    void live_table()
    {
       const impl::type_factory& tf = lex;
@@ -257,6 +289,7 @@ static void body(Ctx& C)
    }
    if (C.worker == 0) H.foreign_operands();
    if (C.worker == 1 % C.workers) H.denormalised_operands();
+   if (C.worker == 2 % C.workers) { C.need("requalifications_of_a_client_made_operand_nested_deeper_than_the_number_of_qualifier_bits"); H.deeply_nested_operands(); }
    H.live_table();
    C.exhaustive(false);
    C.extra("exhaustive_subspace", "\"all 2800 sequences of non-empty subsets of the 3 basic qualifiers of length<=4, for each of 40 unqualified types\"");
